@@ -204,7 +204,7 @@ class C09(Prop):
         kind = rng.choice(KINDS)
         if kind in ('ct_on', 'ct_off') and rng.random() < 0.12:
             return self.gen_sibling(rng, kind)
-        if rng.random() < 0.06:
+        if rng.random() < 0.1:
             # C06's shared-term template: a named arithmetic sub-formula used in a predicate that also mentions a
             # variable of the other io class, and again in a predicate of its own; interface-aware semantics
             from rtverif.props.c06 import PROP as C06P
